@@ -101,10 +101,14 @@ PROPS = {
     "C05": {
         "jobs": [sess_job(140, 2500, keep_ops=["create", "write", "delete", "mkdir", "rmdir"], world=True)],
         "rule": SESS_RULE, "assumptions": SESS_ASSUME,
-        "partial": ["exactness of uploads and of delete/mkdir/rmdir effects is decided by the differential on the full tree snapshot and the upload oracle; "
-                    "the Coq theorems cover the read-only half and purity of non-mutating requests"],
+        "partial": ["which entry a successful delete/mkdir/rmdir adds or removes is Model/Fs.fs_remove / fs_mkdir, compared with the real tree after every session "
+                    "(full snapshot); the theorems give the frame (no content changes, failure = nothing changed)",
+                    "that generated images and decrypted views cannot be written through is decided by the hostile/sess jobs (create below a virtual prefix is "
+                    "refused in the model: EPERM) and by C20's targets"],
         "level_text": "Theorems C05_readonly (for every byte stream the world after a connection equals the world before when writing is disabled), "
-                      "C05_refused, C05_reads_pure over the session model.",
+                      "C05_refused, C05_reads_pure, C05_create (create leaves an empty upload open or changes nothing), C05_upload_exact (any number of writes "
+                      "of any sizes store exactly the concatenation, acknowledge every length, touch no other file and not the tree), C05_structure_ops over "
+                      "the session model.",
     },
     "C06": {
         "jobs": [sess_job(120, 2500, keep_ops=["open_dir", "dir_entry", "dir_entry_v2", "read_dir", "stat", "dir_size"]),
